@@ -1,5 +1,6 @@
 CONSTANTS
   CacheSlots = 40
 SPECIFICATION TraceSpec
+INVARIANT Done
 POSTCONDITION TraceAccepted
 CHECK_DEADLOCK FALSE
